@@ -65,10 +65,21 @@ class Tracer:
         sys.settrace(None)
 
 
-def reference_bytes(n, p, adds):
+def reference_bytes(n, p, adds, count=None):
+    """export of an in-memory filter with the same history; an entry "!k" is an add of key k that raises
+    part-way (short hash list): whatever bits it sets it also sets here, but it is not a completed addition"""
     f = BloomFilter(n, p)
+    done = 0
     for k in adds:
-        f.add(KEYS[k])
+        if k.startswith("!"):
+            try:
+                f.add_alt(f.hashes(KEYS[k[1:]], 1))
+            except IndexError:
+                pass
+        else:
+            f.add(KEYS[k])
+            done += 1
+    f.elements_added = done if count is None else count
     return bytes(f)
 
 
@@ -282,7 +293,7 @@ def validate_sigkill(n, p, hist, res, bad_factory, stride=1):
 
 # ------------------------------------------------------------------ part B: history replay
 
-OPS_B = ["add:a", "add:b", "add:c", "close", "reopen:same", "reopen:chdir", "reopen:rel", "export:chdir", "clear", "query"]
+OPS_B = ["add:a", "add:b", "add:c", "addfail", "close", "reopen:same", "reopen:chdir", "reopen:rel", "export:chdir", "clear", "query"]
 
 
 def replay_histories(depth):
@@ -334,6 +345,14 @@ def run_replay_history(n, p, mode, hist, props, bad):
                 if op.startswith("add:"):
                     f.add(KEYS[op[4:]])
                     adds.append(op[4:])
+                elif op == "addfail":
+                    # an add that raises part-way (hash list shorter than number_hashes) is not a completed addition
+                    try:
+                        f.add_alt(f.hashes(KEYS["c"], 1))
+                        if f.number_hashes == 1:
+                            adds.append("c")
+                    except IndexError:
+                        adds.append("!c")
                 elif op == "close":
                     f.close()
                 elif op == "clear":
@@ -370,13 +389,14 @@ def run_replay_history(n, p, mode, hist, props, bad):
                         os.chdir(root)
                         f = BloomFilterOnDisk(os.path.relpath(path, root))
                     if final:
-                        for k in set(adds):
+                        done = [k for k in adds if not k.startswith("!")]
+                        for k in set(done):
                             if not f.check(KEYS[k]):
                                 bad("C11", "disk.reopen_reports_keys", {**where, "key": k})
                                 bad("C01", "disk.reopen_reports_keys", {**where, "key": k})
-                        if f.elements_added != len(adds):
-                            bad("C11", "disk.reopen_keeps_count", {**where, "obs": f.elements_added, "expected": len(adds)})
-                            bad("C14", "disk.reopen_keeps_count", {**where, "obs": f.elements_added, "expected": len(adds)})
+                        if f.elements_added != len(done):
+                            bad("C11", "disk.reopen_keeps_count", {**where, "obs": f.elements_added, "expected": len(done)})
+                            bad("C14", "disk.reopen_keeps_count", {**where, "obs": f.elements_added, "expected": len(done)})
                 elif op == "export:chdir":
                     os.chdir(away)
                     dest = os.path.join(away, "exported.blm")
@@ -402,6 +422,7 @@ def run_replay_history(n, p, mode, hist, props, bad):
             est, count, fpr = FOOT.unpack(blob[-FOOT.size:])
             ref = reference_bytes(n, p, adds)
             closed = op == "close"
+            all_adds, adds = adds, [k for k in adds if not k.startswith("!")]
             if count != len(adds):
                 bad("C11", "disk.count_after_op", {**where, "recorded": count, "completed": len(adds)})
                 bad("C14", "disk.count_after_op", {**where, "recorded": count, "completed": len(adds)})
@@ -454,12 +475,12 @@ class DiskSystem(System):
         cfgs = []
         for n, p in GEOMS:
             if prop == "C11":
-                cfgs.append(dict(part="crash", n=n, p=p, depth=3 if quick else 4, cost=300 if quick else 3000))
+                cfgs.append(dict(part="crash", n=n, p=p, depth=3 if quick else 4, cost=20000 if quick else 200000))
             for mode in ("cwd", "sub", "abs"):
-                cfgs.append(dict(part="replay", n=n, p=p, mode=mode, depth=(4 if prop == "C11" else 3) if quick else 5, cost=100))
+                cfgs.append(dict(part="replay", n=n, p=p, mode=mode, depth=(4 if prop == "C11" else 3) if quick else 5, cost=15000))
         if prop == "C11":
             for h in ([["add:a", "add:b", "close"]] if quick else [["add:a", "add:b", "close"], ["add:a", "export", "add:b"], ["add:b", "add:b", "close"]]):
-                cfgs.append(dict(part="sigkill", n=10, p=0.05, ops=h, stride=2 if quick else 1, cost=200))
+                cfgs.append(dict(part="sigkill", n=10, p=0.05, ops=h, stride=2 if quick else 1, cost=20000))
         return cfgs
 
     def run(self, cfg, props, tier):
